@@ -206,7 +206,10 @@ func runLimit(cfg *hx.RunCfg) error {
 				ip = 0
 			}
 			if g.Chance(0.8) {
-				fr = "." + fmt.Sprint(g.Intn(100000))[0:1+g.Intn(3)%len(fmt.Sprint(g.Intn(100000)+1))]
+				fr = "."
+				for k := 1 + g.Intn(3); k > 0; k-- {
+					fr += fmt.Sprint(g.Intn(10))
+				}
 			}
 			str = fmt.Sprint(ip) + fr + []string{"MB", "KB"}[g.Intn(2)]
 		}
